@@ -127,6 +127,37 @@ Fixpoint drain_loop (g : nat -> nat) (pt : nat -> nat) (max : nat) (fuel k : nat
 Definition drain_exit (rs : list request) (pt : nat -> nat) (max : nat) : option nat :=
   drain_loop (gauge rs) pt max (max + 2) 0.
 
+(* ------------------------------------------------------------------ 2b. a server = a LIST of listeners
+   server/handler.go GracefulStopListeners: one goroutine per listener calls listener.Shutdown, the caller waits for all.
+   `copy` (Gen/TransferTokens.v shutdown_goroutine_has_own_listener) = each goroutine works on ITS listener (a per-iteration
+   copy `al := l`, or the listener passed as an argument); with go < 1.22 loop semantics and the range variable captured
+   directly, the goroutines all see the variable's final value: the LAST listener (modelled as n calls on the last). *)
+Definition shutdown_targets (copy : bool) (n : nat) : list nat := if copy then seq 0 n else repeat (n - 1) n.
+Definition hits (tg : list nat) (i : nat) : nat := count_occ Nat.eq_dec tg i.
+
+Fixpoint mapi_from {A B} (f : nat -> A -> B) (i : nat) (l : list A) : list B :=
+  match l with [] => [] | x :: l' => f i x :: mapi_from f (S i) l' end.
+
+Definition srv_shutdown (copy : bool) (ls : list listener) : list listener :=
+  let tg := shutdown_targets copy (length ls) in
+  mapi_from (fun i l => Nat.iter (hits tg i) (l_shutdown false) l) 0 ls.
+
+(* the moment GracefulStopListeners returns: every goroutine has returned from the drain of ITS target *)
+Fixpoint srv_return_from (tg : list nat) (rss : list (list request)) (pt : nat -> nat) (max : nat) (i : nat) : option nat :=
+  match rss with
+  | [] => Some (pt 0)
+  | rs :: rest =>
+      match srv_return_from tg rest pt max (S i) with
+      | None => None
+      | Some t =>
+          if Nat.ltb 0 (hits tg i) then
+            match drain_exit rs pt max with Some e => Some (Nat.max (pt e) t) | None => None end
+          else Some t
+      end
+  end.
+Definition srv_return (copy : bool) (rss : list (list request)) (pt : nat -> nat) (max : nat) : option nat :=
+  srv_return_from (shutdown_targets copy (length rss)) rss pt max 0.
+
 (* per protocol: the moment a request becomes a stream (request_active + 1).
    bolt (stream/xprotocol Dispatch) and HTTP/1.1 (stream/http serve: fasthttp ReadLimitBody, then NewStreamDetect) decode a
    request only when it has arrived completely; HTTP/2 (stream/http2 handleFrame) creates the stream on the HEADERS frame.
@@ -322,6 +353,23 @@ Definition xfer_case_ok (has_room : bool) (k : xfer_case) : bool :=
     else Nat.eqb replies 0
   end.
 Definition xfer_mismatches (has_room : bool) (l : list xfer_case) : list nat := mismatches_from (xfer_case_ok has_room) 0 l.
+
+(* multi-listener server: per listener its exchanges, signal, drain max, tick, tolerance, observed return of
+   GracefulStopListeners, per listener whether a connect was still accepted / established afterwards *)
+Definition srv_case := (list (list exch) * nat * nat * nat * nat * nat * list bool)%type.
+Definition srv_case_ok (copy : bool) (k : srv_case) : bool :=
+  match k with (xss, s, max, tick, tol, ret_obs, open_after) =>
+    let n := length xss in
+    let ls := srv_shutdown copy (repeat (l_run (l_init true false) [OpStart false]) n) in
+    andb (match srv_return copy (map (map req_of) xss) (fun i => s + i * tick) max with
+          | None => false
+          | Some t => andb (t <=? ret_obs + tol) (ret_obs <=? t + tol)
+          end)
+         (andb (Nat.eqb (length open_after) n)
+               (forallb (fun lo => Bool.eqb (negb (match l_connect (fst lo) with CRefused => true | _ => false end)) (snd lo))
+                        (combine ls open_after)))
+  end.
+Definition srv_mismatches (copy : bool) (l : list srv_case) : list nat := mismatches_from (srv_case_ok copy) 0 l.
 
 (* what an existing connection was told by the time Shutdown returned: protocol, announced? *)
 Definition ann_case := (proto * bool)%type.
